@@ -173,6 +173,9 @@ def classify (s : List Char) : Option Kind :=
       | some (n, []) =>
         if n == 1 then some (.char pre)
         else if n ≥ 2 && pre == "" then some .multiChar
+        -- C99 6.4.4.4: a prefixed constant may hold several characters too (its value is
+        -- implementation-defined); the token class of the prefix is the only one there is for it
+        else if n ≥ 2 then some (.char pre)
         else none
       | _ => none
     | '"' :: body =>
